@@ -318,8 +318,16 @@ def run(rep, tier):
         clause_a(facts, rep)
         clause_b(facts, rep)
         clause_c(facts, rep)
+        # operator== looks members up in the other operand: equality is independent of a lookup map only if the map
+        # is kept faithful by every mutator (shared with C12 clause b) and ordered consistently (shared with C14)
+        from . import c12, c14
+        for tag in ('', 'SAlloc'):
+            c12.clause_b(facts, rep, tag)
+        if cfg == 'K1':
+            c14.clause_e(facts, rep, ('::avx2::',))
     rep.trust('clang 14 front end')
     rep.assumptions += [
         'decides who may write the numeric payload, zero-initialisation and kind of number nodes, kind selection of sibling constructors, and the structure of operator== (basic type first, kind equality + whole-node comparison for numbers, sizes before children, string views, != as negation)',
+        'plus the map-maintenance pairing of the mutators and the comparator order that member lookup through a map relies on (shared with C12/C14)',
         'does NOT decide reflexivity / symmetry / transitivity over all documents',
     ]
